@@ -431,6 +431,44 @@ def r_rule_in_iterator(ck: Checker) -> None:
             ck.holds("R-TRANSFORM-PATH", f, f.node, what)
 
 
+def r_rule_exceptions_pass(ck: Checker) -> None:
+    """What a visitor method raises reaches the caller of visit / transform.  Positive pattern: a rule is *called* inside a `try` whose handler
+    (AttributeError, LookupError, Exception ... — anything a rule may raise) does not re-raise: the error of a buggy rule is taken for
+    "no such method" / "nothing changed" and dispatch or transformation carries on with another method."""
+    fs = list(ck.repo.functions([ck.repo.mod(VIS)])) + [ck.repo.func(NODE, "ASTNode.accept")]
+    for f in fs:
+        fn = f.raw or f.node
+        visitor = fn.args.args[1].arg if f.qualname == "ASTNode.accept" and len(fn.args.args) > 1 else None
+        method_vars = {st.targets[0].id for st in ast.walk(fn) if isinstance(st, ast.Assign) and len(st.targets) == 1 and isinstance(st.targets[0], ast.Name)
+                       and ((isinstance(st.value, ast.Call) and dotted(st.value.func) == "getattr") or (isinstance(st.value, ast.Attribute) and st.value.attr in ("generic_visit", "visit")))}
+
+        def is_rule_call(c: ast.AST) -> bool:
+            if not isinstance(c, ast.Call):
+                return False
+            fu = c.func
+            if isinstance(fu, ast.Call) and dotted(fu.func) == "getattr":
+                return True
+            if isinstance(fu, ast.Name) and fu.id in method_vars:
+                return True
+            if isinstance(fu, ast.Attribute) and fu.attr in ("visit", "generic_visit", "accept", "transform") or \
+                    (isinstance(fu, ast.Attribute) and fu.attr.startswith("visit_")):
+                return True
+            return False
+        bad = None
+        for t in [x for x in ast.walk(fn) if isinstance(x, ast.Try)]:
+            if not any(is_rule_call(c) for b in t.body for c in ast.walk(b)):
+                continue
+            for h in t.handlers:
+                if not (h.body and isinstance(h.body[-1], ast.Raise)):
+                    bad = (h, norm(h.type)[:40] if h.type is not None else "everything")
+        what = f"{f.qualname}: an exception raised by a visitor method reaches the caller (no handler around the call of a rule swallows it)"
+        if bad:
+            ck.violation("R-DISPATCH", f, bad[0], what, positive=True,
+                         construct=f"{f.qualname}: a rule is called inside `try` and `except {bad[1]}` does not re-raise — an error raised inside the rule is swallowed and another method is tried")
+        else:
+            ck.holds("R-DISPATCH", f, f.node, what)
+
+
 def run(ck: Checker) -> None:
     ck.explanation = (
         "Decision trees of accept (strict arm / MRO arm / fallback), of the per-child loop body of _transform_children over the atoms "
@@ -444,6 +482,9 @@ def run(ck: Checker) -> None:
     ck.guard("R-TRANSFORM-PATH", lambda: r_transform_path(ck, ck.repo.func(VIS, "ASTTransformVisitor._transform_children")))
     ck.guard("R-IDENT-RETURN", lambda: r_ident_return(ck))
     ck.guard("R-TRANSFORM-PATH", lambda: r_rule_in_iterator(ck))
+    ck.guard("R-DISPATCH", lambda: r_rule_exceptions_pass(ck))
+    from . import state_rules as S_
+    ck.guard("R-TRANSFORM-PATH", lambda: S_.r_unstable_key(ck, "R-TRANSFORM-PATH", [(NODE, "ASTNode.accept"), (VIS, "ASTVisitor"), (VIS, "ASTTransformVisitor")], "a transformation looks at the tree it is given"))
     ck.guard("R-PRESENCE", lambda: T.r_presence(ck))
     ck.require_count("R-DISPATCH", 2)
     ck.require_count("R-TRANSFORM-PATH", 3)
